@@ -30,7 +30,7 @@ ASSUMPTIONS = [
 ]
 RULE += e2e.RULE_SUFFIX
 
-CFG = gen.GenCfg(min_steps=2, max_steps=12, wide=True, fiat_columns=True)
+CFG = gen.GenCfg(min_steps=2, max_steps=12, wide=True, fiat_columns=True, fiat_only_out_fee=True)
 REL = Fraction(1, 10**15)
 _MONITOR: Dict[str, Any] = {"installed": False, "hits": []}
 
